@@ -173,6 +173,11 @@ def run_polls(ctx):
     outs = [m.decode() for m in vlib.run_model("C19", IMPORTS, exprs, shard=200)]
     per = len(frames) + 4
     allowed = {False: set(o.rsplit("|", 1)[0] for o in outs[:per]), True: set(o.rsplit("|", 1)[0] for o in outs[per:])}
+    # the same writer with the directory step visible (model/FsWriteDirs.v): what may be left - directory, object, temp file - for some drop point
+    dexprs = ["show_dstate (outcome [%s] None false %d%%nat %s %s)" % (";".join(cb(f) for f in frames), n_, "true" if present else "false", prev_term(present))
+              for present in (False, True) for n_ in range(len(frames) + 5)]
+    douts = [m.decode() for m in vlib.run_model("C19", ["lib.Bytes", "model.FsWriteDirs"], dexprs, shard=200)]
+    dallowed = {False: set(douts[:len(frames) + 5]), True: set(douts[len(frames) + 5:])}
     res = vlib.run_impl("c19", cases)
     known, seen_known = vlib.known_findings("C19"), set()
     for r, mt in zip(res, meta):
@@ -183,6 +188,10 @@ def run_polls(ctx):
         content, ntmp, g = observe(r["outs"], r["tmp"])
         impl = expected_show(content, ntmp, "x").rsplit("|", 1)[0]
         ctx.count("drop_polls." + ("completed" if r["experiment"][0].startswith("completed") else "dropped") + (".new" if content == body else ".prev"))
+        dshow = "%s|%s|tmp=%d" % ("dir" if (mt["present"] or leftovers(r)) else "nodir", "absent" if content is None else "obj:" + content.hex(), min(ntmp, 1))
+        if dshow not in dallowed[mt["present"]]:
+            ctx.violation(dict(stage="correspondence:drop", kind="a dropped request left a state the model with the directory step allows for no drop point: " + dshow[:80],
+                               case=mt, experiment=r["experiment"]), has_input=False)
         if content is None and not mt["present"] and leftovers(r) and r["experiment"] == ["dropped:drained"] and "drop-between-mkdir-and-rename" in known:
             # the listed finding: abandoned inside FileWriter::done, after create_dir_all and before the rename (the body had been read to its end)
             if "drop-between-mkdir-and-rename" not in seen_known:
